@@ -519,8 +519,10 @@ def part_from_matchfile(
         # measure, add a rest (dummy)
         # if starting beat is above zero, add padding
         rest = score.Rest()
-        part.add(rest, start=0, end=t * divs)
-        onset_in_divs += t * divs
+        # (time points are integer divisions)
+        padding = int(round(t * divs))
+        part.add(rest, start=0, end=padding)
+        onset_in_divs += padding
         offset = 0
         t = t - t % beats_map_from_beats(min_time)
 
